@@ -407,3 +407,70 @@ class Program:
 
 def load_repo(repo: str) -> Program:
     return Program.from_dir(os.path.join(repo, "src", "serif"))
+
+
+# ---------------------------------------------------------------------------
+# canonical text: independent of the spelling of bound variables
+# ---------------------------------------------------------------------------
+class _Canon(ast.NodeTransformer):
+    def __init__(self, free=None):
+        self.map_stack = [dict(free or {})]
+        self.counter = 0
+
+    def _lookup(self, name):
+        for m in reversed(self.map_stack):
+            if name in m:
+                return m[name]
+        return None
+
+    def visit_Name(self, n):
+        r = self._lookup(n.id)
+        if r is not None:
+            return ast.copy_location(ast.Name(id=r, ctx=n.ctx), n)
+        return n
+
+    def _bind(self, target):
+        for x in ast.walk(target):
+            if isinstance(x, ast.Name):
+                self.map_stack[-1][x.id] = f"_{self.counter}"
+                self.counter += 1
+
+    def _comp(self, n):
+        self.map_stack.append({})
+        for g in n.generators:
+            g.iter = self.visit(g.iter)
+            self._bind(g.target)
+            g.target = self.visit(g.target)
+            g.ifs = [self.visit(c) for c in g.ifs]
+        if isinstance(n, ast.DictComp):
+            n.key = self.visit(n.key)
+            n.value = self.visit(n.value)
+        else:
+            n.elt = self.visit(n.elt)
+        self.map_stack.pop()
+        return n
+
+    visit_ListComp = _comp
+    visit_SetComp = _comp
+    visit_GeneratorExp = _comp
+    visit_DictComp = _comp
+
+    def visit_Lambda(self, n):
+        self.map_stack.append({})
+        for a in n.args.posonlyargs + n.args.args + n.args.kwonlyargs:
+            self.map_stack[-1][a.arg] = f"_{self.counter}"
+            a.arg = f"_{self.counter}"
+            self.counter += 1
+        n.args.defaults = [self.visit(d) for d in n.args.defaults]
+        n.body = self.visit(n.body)
+        self.map_stack.pop()
+        return n
+
+
+def cshort(node: ast.AST, free=None, n: int = 400) -> str:
+    """Like short(), but variables bound by comprehensions / lambdas are renamed _0, _1, ... in binding order and
+    the free names given in `free` ({local name: placeholder}) are replaced: the text no longer depends on spelling."""
+    import copy
+    t = _Canon(free).visit(copy.deepcopy(node))
+    s = " ".join(unparse(t).split())
+    return s if len(s) <= n else s[: n - 3] + "..."
